@@ -404,6 +404,15 @@ def tensor(vk, cfg):
                 vk.ensures_eq(f"rotation/dim=3,axis={axis}/right-handed", np.array([R[j, j], R[k, j], R[j, k], R[k, k], R[axis, axis]]), np.array([c, s_, -s_, c, co(1)]))
             else:
                 vk.ensures_eq("rotation/dim=2/counter-clockwise", R, np.array([[c, -s_], [s_, c]]))
+        # a negative axis counts from the end (the convention of the library's own axis arguments, e.g. the default
+        # axis=-1 of mesh.expand): the same rotation as about axis + 3
+        for axis in (-1, -2, -3):
+            try:
+                Rn = M.rotation_matrix(t, dim=3, axis=axis)
+            except Exception as e:  # noqa: BLE001
+                vk.ensures_true(f"rotation/dim=3,axis={axis}/returns (axis counted from the end)", False, f"{type(e).__name__}: {str(e)[:160]}", backend="exec")
+                continue
+            vk.ensures_eq(f"rotation/dim=3,axis={axis}/==rotation about axis {axis + 3}", Rn, M.rotation_matrix(t, dim=3, axis=axis + 3))
     elif g == "linsteps":
         vk.real(M.linsteps)
         if not vk.sym:
